@@ -214,10 +214,22 @@ def rd_part(res, tier, rnd, count, explicit=None):
                 trees.append(("proof_tree_generator_dfs", t))
                 if k >= 5:
                     break
-            for k, t in enumerate(ts.proof_tree_generator_bfs(pr, r)):
-                trees.append(("proof_tree_generator_bfs", t))
-                if k >= 3:
-                    break
+            # the breadth-first generator can take exponentially long before its first tree: a time budget per call
+            import signal
+
+            import speccheck
+
+            signal.signal(signal.SIGALRM, speccheck._alarm)
+            signal.setitimer(signal.ITIMER_REAL, 2.0)
+            try:
+                for k, t in enumerate(ts.proof_tree_generator_bfs(pr, r)):
+                    trees.append(("proof_tree_generator_bfs", t))
+                    if k >= 3:
+                        break
+            except speccheck.Timeout:
+                res.dist["rd:bfs generator over its time budget (skipped)"] += 1
+            finally:
+                signal.setitimer(signal.ITIMER_REAL, 0)
             for name, t in trees:
                 ask(f"tree {r} {flatten(t)}", "tree-ok", name, dict(hist, root=r, tree=str(t)), "tree-invalid")
             # (d) smallest, through the real RuleDB method with the pruned dict injected
